@@ -10,8 +10,46 @@ namespace Evermint.Facts.TieAnte
 open Evermint Evermint.GenCode Evermint.Ante
 
 /-- a model message as the Go type assertion sees it -/
-def msgView (m : Msg) : iface_ProtoMessage_Reset_String :=
-  { (default : iface_ProtoMessage_Reset_String) with is_evmtypes_MsgEthereumTx := m.isEth }
+instance : Inhabited EthFields := ⟨⟨true, true, false, true, 0, 0, false, false⟩⟩
+
+def vestingKind : Msg → Option Nat
+  | .vesting k _ => some k
+  | _ => none
+
+/-- the bech32 text of a model address id (any fixed rendering: the gate only passes it on) -/
+def addrStr (a : Nat) : String := toString a
+
+def toAddr : Msg → String
+  | .vesting _ to => addrStr to
+  | _ => ""
+
+/-- a model message as the Go type assertions see it; `e` : what `03_validate_basic` reads from the embedded Ethereum
+transaction (meaningful for `.eth` only) -/
+def msgViewE (e : EthFields) (evmTx : types_Transaction) (m : Msg) : iface_ProtoMessage_Reset_String :=
+  { (default : iface_ProtoMessage_Reset_String) with
+    is_evmtypes_MsgEthereumTx := m.isEth
+    is_vestingtypes_MsgCreateVestingAccount := vestingKind m == some 0
+    is_vestingtypes_MsgCreatePeriodicVestingAccount := vestingKind m == some 1
+    is_vestingtypes_MsgCreatePermanentLockedAccount := vestingKind m == some 2
+    as_vestingtypes_MsgCreateVestingAccount_ToAddress := toAddr m
+    as_vestingtypes_MsgCreatePeriodicVestingAccount_ToAddress := toAddr m
+    as_vestingtypes_MsgCreatePermanentLockedAccount_ToAddress := toAddr m
+    as_evmtypes_MsgEthereumTx_ValidateBasic := if e.msgBasicOK then none else some "ErrInvalidMsg"
+    as_evmtypes_MsgEthereumTx_AsTransaction_AsMessage_vbd_new_LatestSignerForChainID_01415ad1 :=
+      fun _ => ((), if e.asMessageOK then none else some "ErrInvalidSig")
+    as_evmtypes_MsgEthereumTx_AsTransaction_To_isNil := e.create
+    as_evmtypes_MsgEthereumTx_AsTransaction_Protected := e.prot
+    as_evmtypes_MsgEthereumTx_AsTransaction_Gas := evmTx.Gas
+    as_evmtypes_MsgEthereumTx_AsTransaction_GasFeeCap := evmTx.GasFeeCap
+    as_evmtypes_MsgEthereumTx_AsTransaction_GasPrice := evmTx.GasPrice
+    as_evmtypes_MsgEthereumTx_AsTransaction_GasTipCap := evmTx.GasTipCap
+    as_evmtypes_MsgEthereumTx_AsTransaction_Type' := evmTx.Type' }
+
+def msgView (m : Msg) : iface_ProtoMessage_Reset_String := msgViewE default default m
+
+@[simp] theorem msgViewE_isEth (e : EthFields) (x : types_Transaction) (m : Msg) :
+    (msgViewE e x m).is_evmtypes_MsgEthereumTx = m.isEth := rfl
+@[simp] theorem msgView_isEth (m : Msg) : (msgView m).is_evmtypes_MsgEthereumTx = m.isEth := rfl
 
 def extUrl : Nat → String
   | 0 => "/ethermint.evm.v1.ExtensionOptionsEthereumTx"
@@ -37,7 +75,7 @@ theorem range_spec (tx : types_Tx) : ∀ (ms : List Msg) (ix : Int) (found : Boo
   | cons m tl ih =>
     intro ix found
     unfold utils_HasSingleEthereumMessage.range1
-    simp only [List.map_cons, msgView]
+    simp only [List.map_cons, msgView_isEth]
     cases hm : m.isEth <;> cases found <;> simp [ih]
     all_goals (cases tl with
       | nil => simp [hm]
